@@ -75,6 +75,9 @@ def make_trace(mode: str, detail: str, name: str = "trace"):
         return JsonlTraceDriver(f"{name}.ser.jsonl", detail=detail)
     if mode == "cwd":
         return JsonlTraceDriver(None, detail=detail)     # default: timestamped file in the current directory
+    if mode == "dotdir":
+        os.makedirs(f"{name}.traces.v1", exist_ok=True)   # an EXISTING directory whose name contains dots
+        return JsonlTraceDriver(f"{name}.traces.v1", detail=detail)
     return JsonlTraceDriver(f"{name}_dir", detail=detail)
 
 
